@@ -257,6 +257,10 @@ func runProducerScenario(t testing.TB, rec *vRec, sc *prodScenario) {
 						h, _ := args[1].(int)
 						irec.Ev("pp_recv", kv{"part": int(m.Partition), "id": msgID(m), "retries": m.retries, "fin": m.flags&fin != 0, "hwm": h})
 					}
+				case "bp.recv":
+					if m, ok := args[0].(*ProducerMessage); ok && os.Getenv("VERIF_DEBUG_HOOKS") != "" {
+						irec.Ev("bp_recv", kv{"part": int(m.Partition), "id": msgID(m), "retries": m.retries, "flags": int(m.flags)})
+					}
 				case "pp.flush":
 					pt, _ := args[1].(int32)
 					lv, _ := args[2].(int)
